@@ -176,6 +176,26 @@ func (ex *Exec) evalCall(e *ast.CallExpr) []Val {
 		}
 	}
 	resTypes := resultTypes(info.TypeOf(e))
+	if ex.fc != nil && len(ex.fc.Binds) > 0 && len(ex.code) <= 1 {
+		txt := noSpace(exprString(e))
+		var env map[string]Val
+		for _, b := range ex.fc.Binds {
+			if noSpace(b.CallText) == txt {
+				sc := ex.specHere(e.Pos())
+				sc.where = b.Value.Line
+				v, _ := ex.specEval(sc, b.Value.Expr)
+				if env == nil {
+					env = map[string]Val{}
+				}
+				env[b.Name] = v
+				ex.bindsUsed[b] = true
+			}
+		}
+		if env != nil {
+			ex.ghostEnv = append(ex.ghostEnv, env)
+			defer func() { ex.ghostEnv = ex.ghostEnv[:len(ex.ghostEnv)-1] }()
+		}
+	}
 	callee, _ := typeutil.Callee(info, e).(*types.Func)
 	if callee != nil {
 		full := callee.Origin().FullName()
@@ -608,6 +628,22 @@ func (ex *Exec) callByContract(fc *FuncContract, callee *types.Func, sig *types.
 			sc.vars[n] = all[i]
 		}
 	}
+	// ghost parameters: instantiated from the innermost bind, otherwise arbitrary
+	for gi, gn := range fc.GhostNames {
+		var gv *Val
+		for i := len(ex.ghostEnv) - 1; i >= 0 && gv == nil; i-- {
+			if v, ok := ex.ghostEnv[i][gn]; ok {
+				gv = &v
+			}
+		}
+		gt := ex.lookupType(pk, fc.GhostTypes[gi])
+		if gv == nil {
+			t := ex.fresh("ghost."+gn, sortOf(gt))
+			ex.assume(ex.typeFact(gt, t))
+			gv = &Val{t, gt}
+		}
+		sc.vars[gn] = Val{gv.T, gt}
+	}
 	// preconditions
 	for i, c := range fc.Requires {
 		lab := c.Label
@@ -693,6 +729,19 @@ func (ex *Exec) callByContract(fc *FuncContract, callee *types.Func, sig *types.
 	for _, c := range fc.Ensures {
 		ex.assume(ex.specBool(sc, c))
 	}
+	for _, b := range fc.Behaviors {
+		// assumptions are evaluated in the pre-state, with the same bindings
+		pre := *sc
+		pre.st = old
+		var as []*T
+		for _, a := range b.Assumes {
+			as = append(as, ex.specBool(&pre, a))
+		}
+		hyp := And(as...)
+		for _, c := range b.Ensures {
+			ex.assume(Imp(hyp, ex.specBool(sc, c)))
+		}
+	}
 	return out
 }
 
@@ -731,6 +780,16 @@ func (ex *Exec) applyFrame(sc *specCtx, modifies []*Clause, allocates []string, 
 		ex.st.env["$alloc"] = na
 	}
 	done := map[string]bool{}
+	for _, tg := range targets {
+		// the caller's own frame must allow what the callee may modify
+		if tg.ref == nil {
+			if _, whole := ex.frameTargetsFor(tg.key); !whole && ex.oldState != nil && ex.fn != nil {
+				ex.assert("O", "callee-modifies-all["+strings.TrimPrefix(tg.key, "$")+"]", False)
+			}
+		} else {
+			ex.checkWrite(tg.key, tg.ref)
+		}
+	}
 	for _, tg := range targets {
 		if _, isAlloc := allocKeys[tg.key]; isAlloc {
 			continue
